@@ -48,6 +48,8 @@ enum ThState {
 }
 
 struct Th {
+    /// decision number at which the thread last got the baton (fair choice for blocked threads)
+    last_run: u64,
     state: ThState,
     depth: u32,
     woken: bool,
@@ -103,7 +105,7 @@ impl Ctl {
         Arc::new(Ctl {
             fine,
             m: Mutex::new(St {
-                threads: vec![Th { state: ThState::Runnable, depth: 0, woken: false, kind: 0, task: None }],
+                threads: vec![Th { last_run: 0, state: ThState::Runnable, depth: 0, woken: false, kind: 0, task: None }],
                 current: 0,
                 free_run: false,
                 quiescent: false,
@@ -156,7 +158,16 @@ impl Ctl {
             return me;
         }
         let me_enabled = enabled.contains(&(me as u16));
-        let default = if me_enabled { me as u16 } else { enabled[0] };
+        // default: continue the running thread; a thread that finished / parked hands over to the lowest id; a
+        // thread that found its lock held hands over to the runnable thread that has not run for the longest time
+        // (the holder of the lock gets its turn after at most one round)
+        let default = if me_enabled {
+            me as u16
+        } else if blocked {
+            *enabled.iter().min_by_key(|t| (st.threads[**t as usize].last_run, **t)).unwrap()
+        } else {
+            enabled[0]
+        };
         let i = st.decisions.len();
         let chosen = if i < st.prefix.len() {
             let want = st.prefix[i];
@@ -172,6 +183,8 @@ impl Ctl {
             default
         };
         st.decisions.push(Decision { enabled, chosen, cur: me as u16, cur_enabled: me_enabled });
+        let now = st.decisions.len() as u64;
+        st.threads[chosen as usize].last_run = now;
         chosen as usize
     }
 
@@ -277,7 +290,7 @@ impl Ctl {
         }
         let id = st.threads.len();
         let task = st.last_spawn_task.take();
-        st.threads.push(Th { state: ThState::Runnable, depth: 0, woken: false, kind: 2, task });
+        st.threads.push(Th { last_run: 0, state: ThState::Runnable, depth: 0, woken: false, kind: 2, task });
         let ctl = self.clone();
         let h = std::thread::Builder::new()
             .stack_size(8 << 20)
@@ -462,7 +475,7 @@ impl ThrDriver {
                 let handle: Arc<dyn QueryHandle> = r.output.query_handle();
                 let mut st = ctl2.m.lock().unwrap();
                 let id = st.threads.len();
-                st.threads.push(Th { state: ThState::Runnable, depth: 0, woken: false, kind: 1, task: None });
+                st.threads.push(Th { last_run: 0, state: ThState::Runnable, depth: 0, woken: false, kind: 1, task: None });
                 let ctl3 = ctl2.clone();
                 let h = std::thread::spawn(move || {
                     crate::drv::set_quiet(true);
@@ -514,6 +527,7 @@ impl ThrDriver {
                 }
                 st.threads[0].depth = 1;
                 st.threads[0].woken = false;
+                st.log.push(Ev::T(0, u16::MAX, "ClientPoll", [false; 4]));
             }
             let r = catch_unwind(AssertUnwindSafe(|| fut.as_mut().poll(&mut cx)));
             {
@@ -621,6 +635,7 @@ impl ThrDriver {
         // cancel oracle input: was some task incomplete when the first CancelSet happened?
         let mut completed: BTreeSet<u16> = BTreeSet::new();
         let mut cancel_incomplete = false;
+        let mut reported = false;
         let mut canceled = false;
         let mut seen_tasks: BTreeSet<u16> = BTreeSet::new();
         for e in &st.log {
@@ -629,14 +644,16 @@ impl ThrDriver {
                     seen_tasks.insert(*t);
                 }
                 match *l {
+                    // the cancellation was handed to the error sink ...
+                    "ScheduleCanceled" => reported = true,
+                    // ... and the consumer polled the stream afterwards: that poll must see the error
+                    "ClientPoll" if reported => cancel_incomplete = true,
                     "PollDone" => {
                         completed.insert(*t);
                     }
                     "CancelSet" => {
                         canceled = true;
-                        if !f[2] && !completed.contains(t) {
-                            cancel_incomplete = true;
-                        }
+                        let _ = (f, &completed);
                     }
                     _ => {}
                 }
@@ -910,7 +927,7 @@ pub fn explore(shape: &Shape, cfg: &ThrCfg) -> ThrResult {
                                     viol = Some(("error-lost".into(), "a task error reaches the client".into(), obs.outcome.brief()));
                                 } else if cfg.with_cancel {
                                     if obs.cancel_done_while_incomplete && !obs.outcome.is_error() {
-                                        viol = Some(("cancel-without-error".into(), "the result stream of a query cancelled while a task was incomplete ends with an error".into(), obs.outcome.brief()));
+                                        viol = Some(("cancel-without-error".into(), "the cancellation was reported to the result stream (a task was incomplete) before the consumer polled it again: the stream ends with an error".into(), obs.outcome.brief()));
                                     }
                                 } else if c != ref_canon {
                                     viol = Some(("result-differs".into(), ref_canon.chars().take(300).collect(), obs.outcome.brief()));
